@@ -26,11 +26,19 @@ def main():
     tier = "quick"
     if "--tier" in sys.argv:
         tier = sys.argv[sys.argv.index("--tier") + 1]
-    meta = json.load(open(os.path.join(d, "meta.json")))
-    props = meta.get("detected_by_checks") or [meta["property"]]
+    mp = os.path.join(d, "meta.json")
+    meta = json.load(open(mp)) if os.path.exists(mp) else {}
+    props = meta.get("detected_by_checks") or ([meta["property"]] if "property" in meta else [])
     if "--props" in sys.argv:
         props = sys.argv[sys.argv.index("--props") + 1].split(",")
-    tag = os.path.basename(d)
+    if "--auto" in sys.argv or not props:
+        # every property anchored in a file the patch touches (vlib.WATCH)
+        sys.path.insert(0, os.path.join(ROOT, "tools"))
+        import vlib
+        changed = [l[6:].strip() for l in open(os.path.join(d, "patch.diff")) if l.startswith("+++ b/")]
+        props = sorted(p for p, ws in vlib.WATCH.items()
+                       if any(c == w or c.startswith(w.rstrip("/") + "/") for c in changed for w in ws))
+    tag = os.path.basename(os.path.dirname(d)) + "-" + os.path.basename(d) if not meta else os.path.basename(d)
     base = "/tmp/seedrun/" + tag
     shutil.rmtree(base, ignore_errors=True)
     os.makedirs(base)
